@@ -52,6 +52,51 @@ theorem C20_schedule_independent (S : Sys κ σ ω o syms) (k : κ) (hs : syms =
   rw [hsame ℓ] at h1
   exact ⟨h1.1.trans h2.1.symm, h1.2.trans h2.2.symm⟩
 
+/-- **Frame.**  A Lexicon no event of the run works on is left exactly as it was, and its thread sees nothing. -/
+theorem C20_untouched (S : Sys κ σ ω o syms) (k : κ) (hs : syms = []) (g : Global σ syms) (tr : List (Ev ω)) (ℓ : Nat)
+    (hnone : ∀ e ∈ tr, e.lex ≠ ℓ) :
+    outs ℓ (exec S k g tr).2 = [] ∧ (exec S k g tr).1.lex ℓ = g.lex ℓ := by
+  have hp : proj ℓ tr = [] := by
+    induction tr with
+    | nil => rfl
+    | cons e tr ih =>
+      have h1 : e.lex ≠ ℓ := hnone e (by simp)
+      simp only [proj, h1, if_false]
+      exact ih (fun e' he' => hnone e' (by simp [he']))
+  have h := C20_interleave S k hs g tr ℓ
+  rw [hp] at h
+  simpa [runAlone] using h
+
+theorem proj_swap (ℓ : Nat) (pre post : List (Ev ω)) (a b : Ev ω) (hne : a.lex ≠ b.lex) :
+    proj ℓ (pre ++ a :: b :: post) = proj ℓ (pre ++ b :: a :: post) := by
+  induction pre with
+  | nil =>
+    simp only [List.nil_append, proj]
+    by_cases ha : a.lex = ℓ
+    · have hb : b.lex ≠ ℓ := fun e => hne (ha.trans e.symm)
+      simp [ha, hb]
+    · simp [ha]
+  | cons e pre ih => simp only [List.cons_append, proj, ih]
+
+/-- **Adjacent events on different Lexicons commute.**  Exchanging two neighbouring steps of different threads — the
+    elementary move that generates every re-scheduling — changes no thread's outputs and no Lexicon's final state. -/
+theorem C20_swap_adjacent (S : Sys κ σ ω o syms) (k : κ) (hs : syms = []) (g : Global σ syms)
+    (pre post : List (Ev ω)) (a b : Ev ω) (hne : a.lex ≠ b.lex) (ℓ : Nat) :
+    outs ℓ (exec S k g (pre ++ a :: b :: post)).2 = outs ℓ (exec S k g (pre ++ b :: a :: post)).2 ∧
+    (exec S k g (pre ++ a :: b :: post)).1.lex ℓ = (exec S k g (pre ++ b :: a :: post)).1.lex ℓ :=
+  C20_schedule_independent S k hs g _ _ (fun j => proj_swap j pre post a b hne) ℓ
+
+theorem length_runAlone (S : Sys κ σ ω o syms) (k : κ) (sh : Shared syms) (s : σ) (ops : List ω) :
+    (runAlone S k sh s ops).2.length = ops.length := by
+  induction ops generalizing sh s with
+  | nil => rfl
+  | cons op ops ih => simp only [runAlone, List.length_cons, ih]
+
+/-- Every operation of a thread yields exactly one output to that thread, whatever the other threads do in between. -/
+theorem C20_one_output_per_op (S : Sys κ σ ω o syms) (k : κ) (hs : syms = []) (g : Global σ syms) (tr : List (Ev ω)) (ℓ : Nat) :
+    (outs ℓ (exec S k g tr).2).length = (proj ℓ tr).length := by
+  rw [(C20_interleave S k hs g tr ℓ).1, length_runAlone]
+
 /-- The library as built now: operations whose only process-wide mutable state is `sharedMutable` are isolated. -/
 theorem C20_isolated (S : Sys κ σ ω o (sharedMutable.map (·.2.2))) (k : κ)
     (g : Global σ (sharedMutable.map (·.2.2))) (tr : List (Ev ω)) (ℓ : Nat) :
@@ -80,6 +125,8 @@ def sound : Sys Unit Nat Unit Nat [] where
 def g1 : Global Nat [] := { shared := fun x => absurd x.2 (by simp), lex := fun _ => 0 }
 
 example : outs 0 (exec sound () g1 [⟨0, ()⟩, ⟨1, ()⟩, ⟨0, ()⟩]).2 = [0, 1] := by decide
+/-- … and the premise of `C20_swap_adjacent` matters: with the writable static, exchanging two neighbours of different threads is observable. -/
+example : outs 0 (exec leaky () g0 [⟨0, ()⟩, ⟨1, ()⟩]).2 ≠ outs 0 (exec leaky () g0 [⟨1, ()⟩, ⟨0, ()⟩]).2 := by decide
 
 /-- The table check is not vacuous: a function-local static with dynamic initialisation is rejected. -/
 example : sharedMutableOf [("impl.o", ".bss", "std::__ioinit"),
